@@ -42,6 +42,7 @@ structure Op where
   fg : Bool
   force : Bool
   sends : List (Addr × Addr × Coins)
+  body : Forest                  -- the parsed message tree: `tx.steps = body.flatten`, `tx.top = body.roots`
 
 def roles : List Addr := ["P", "G", "X", "Q", "R1", "R2", "C"]
 
@@ -61,49 +62,47 @@ private def authGuard (auth : Bool) : Ledger → Except Err Ledger := fun l =>
 
 private def dash (s : String) : String := if s = "-" then "" else s
 
-structure BodyAcc where
-  steps : List Step := []
-  top : List RMsg := []
-  sends : List (Addr × Addr × Coins) := []
-
-/-- Flatten the body tokens into router/handler steps (pre-order, as the router sees nested
-authz messages) and the top-level message list the ante handler sees. -/
-def bodySteps (auth : Bool) (payfee : Option Coin) : List String → Nat → BodyAcc → Option BodyAcc
-  | [], depth, acc => if depth = 0 then some acc else none
-  | tk :: rest, depth, acc =>
-    let addTop (m : RMsg) (a : BodyAcc) : BodyAcc := if depth = 0 then { a with top := a.top ++ [m] } else a
-    if tk = "" ∨ tk = "-" then bodySteps auth payfee rest depth acc
-    else if tk = "exec(" then
-      let m : RMsg := { typ := "exec" }
-      bodySteps auth payfee rest (depth + 1) (addTop m { acc with steps := acc.steps ++ [.route m] })
+/-- Parse the body tokens into the message TREE (`Forest`): `exec(` … `)` is an authz `MsgExec`
+whose children are the messages in between; `stack` holds, innermost first, the sibling forests
+collected so far at the enclosing levels.  What the router and the handlers do (`Tx.steps`) and
+what the ante handler sees (`Tx.top`) are then the model's `Forest.flatten` / `Forest.roots` —
+the functions the nested-message theorems of `PvProofs.C08` are about. -/
+def bodyForest (auth : Bool) (payfee : Option Coin) :
+    List String → List Forest → Forest → List (Addr × Addr × Coins) → Option (Forest × List (Addr × Addr × Coins))
+  | [], stack, cur, sends => if stack.isEmpty then some (cur, sends) else none
+  | tk :: rest, stack, cur, sends =>
+    if tk = "" ∨ tk = "-" then bodyForest auth payfee rest stack cur sends
+    else if tk = "exec(" then bodyForest auth payfee rest (cur :: stack) .nil sends
     else if tk = ")" then
-      match depth with
-      | 0 => none
-      | d + 1 => bodySteps auth payfee rest d acc
+      match stack with
+      | [] => none
+      | outer :: st =>
+        bodyForest auth payfee rest st (outer.append (.node [] { typ := "exec" } [] cur .nil)) sends
     else
       match tk.splitOn ":" with
       | ["send", f, t, cs] =>
         match parseCoins? cs with
         | none => none
         | some coins =>
-          let m : RMsg := { typ := "send" }
-          let guard : List Step := if depth > 0 ∧ f ≠ "P" then [.effect (authGuard auth)] else []
-          bodySteps auth payfee rest depth (addTop m { acc with
-            steps := acc.steps ++ guard ++ [.route m, .effect (sendEffect f t coins)],
-            sends := acc.sends ++ [(f, t, coins)] })
+          -- authz `DispatchActions` checks the grant of an inner message of another signer
+          -- BEFORE routing it
+          let guard : List Step := if stack.length > 0 ∧ f ≠ "P" then [.effect (authGuard auth)] else []
+          bodyForest auth payfee rest stack
+            (cur.append (.node guard { typ := "send" } [.effect (sendEffect f t coins)] .nil .nil))
+            (sends ++ [(f, t, coins)])
       | ["assess", c, rcp, bips] =>
         match parseCoin? c with
         | none => none
         | some coin =>
           let b : Option Nat := if bips = "-" then none else bips.toNat?
           let m : RMsg := { typ := "assess", assess := some { amount := coin, recipient := dash rcp, bips := b } }
-          bodySteps auth payfee rest depth (addTop m { acc with steps := acc.steps ++ [.route m] })
+          bodyForest auth payfee rest stack (cur.append (.node [] m [] .nil .nil)) sends
       | ["pay", id] =>
-        let m : RMsg := { typ := "pay" }
         let fee : List Step := match payfee with
           | some c => [.consume "pay" [c]]
           | none => []
-        bodySteps auth payfee rest depth (addTop m { acc with steps := acc.steps ++ [.route m, .effect (payEffect id)] ++ fee })
+        bodyForest auth payfee rest stack
+          (cur.append (.node [] { typ := "pay" } ([.effect (payEffect id)] ++ fee) .nil .nil)) sends
       | _ => none
 
 def parseSched (s : String) : Option (List (String × MsgFee)) :=
@@ -155,7 +154,7 @@ def parseOp (ws : List String) : Option Op := do
   let sig := kv ws "sig" = some "ok"
   let force := kv ws "force" = some "1"
   let body := ((kv ws "body").getD "").splitOn ";"
-  let acc ← bodySteps auth payfee body 0 {}
+  let (forest, sends) ← bodyForest auth payfee body [] .nil []
   let obs := ((kv ws "obs").getD "--").toList
   let oc := obs.head? = some 'g'
   let od := obs.drop 1 |>.head?
@@ -176,10 +175,10 @@ def parseOp (ws : List String) : Option Op := do
   pure {
     cfg0 := cfg1, gov := gov, re := re, direct2 := direct2, gov2 := gov2,
     tx := { fee := fee, gas := gas, payer := "P", granter := if fg then some "G" else none,
-            top := acc.top, steps := acc.steps, sigOk := sig,
+            top := forest.roots, steps := forest.flatten, sigOk := sig,
             oogCheck := oc, oogAnte := od = some 'a', oogMsgs := od = some 'm', oogRecheck := orc },
     st := { ledger := l0, allow := allow },
-    fg := fg, force := force, sends := acc.sends }
+    fg := fg, force := force, sends := sends, body := forest }
 
 /-- balance change of `a` between two ledgers, canonical -/
 def delta (l0 l1 : Ledger) (a : Addr) : Coins :=
@@ -207,7 +206,7 @@ def showFates (bs : List Bool) : String :=
 
 /-- The model's output line. -/
 def render (op : Op) : String :=
-  let lf := life op.cfg op.cfg2 op.re op.force op.tx op.st
+  let lf := life op.cfg op.cfg2 op.re op.force op.tx op.st op.st op.st
   let gov1 := s!"gov={showFates (applyGov op.cfg0 op.gov).2} cfg={showCfg op.cfg} "
   let gov2 := match lf.recheck with
     | none => " gov2=- cfg2=-"
